@@ -31,9 +31,12 @@ ENV_DROP = ['OCCA_CXX', 'OCCA_CC', 'CXX', 'CC', 'OCCA_CXXFLAGS', 'OCCA_CFLAGS', 
             'OCCA_COMPILER_LANGUAGE', 'OCCA_INCLUDE_PATH', 'OCCA_LIBRARY_PATH', 'OCCA_KERNEL_PATH', 'OCCA_VERBOSE', 'OCCA_COLOR_ENABLED']
 
 
+WORDS = ['', 'a', 'b', 'aa', 'ab', 'ba', 'bb']
+
+
 def flagval(w):
     """abstract value (string over {a,b}, length <= 2) -> command-line value; injective, the same in every property"""
-    return BASEFLAG + str(1 + ['', 'a', 'b', 'aa', 'ab', 'ba', 'bb'].index(w))
+    return BASEFLAG + str(1 + WORDS.index(w))
 
 
 def jdump(v):
@@ -83,6 +86,9 @@ class Env:
             env['OCCA_VERIF_HASHLOG'] = hl
         rc, o, e, s, _ = C.sh([self.exe, mode, what] + args, timeout=600, env=env, cwd=d)
         recs = [dict() for _ in cfgs]
+        mm = re.search(r'^MODE (\S+)', o, re.M)
+        if not mm or mm.group(1).lower() != mode.lower():
+            raise C.Inconclusive('the device created for mode %s reports mode %s: the build of /repo has no such backend, the queries would silently test another one' % (mode, mm.group(1) if mm else '?'))
         for ln in o.split('\n'):
             m = re.match(r'(KEY|BUILT) (\d+) ([0-9a-f]{64}) dir=(\S+)', ln)
             if m:
@@ -389,6 +395,56 @@ def run(ctx):
                 rec['status'] = 'inconclusive'
                 ctx.inconclusive.append('%s: solver answered %s %s' % (rec['query'], r.get('result'), r.get('detail', '')))
             ctx.queries.append(rec)
+        # ---- collisions of the REAL hash inside the flag domain: the hash values are taken from the real library (hook trace),
+        # the choice of values is the solver's.  (occa::hash is h = h*p ^ c per lane: values that differ in their last byte give
+        # linearly related hashes unless further bytes follow, so this domain - values differing in the last character - is the
+        # adversarial one.)
+        fl = [p for p in FLAGP + ['compiler_env_script'] if p in strp]
+        if len(fl) >= 2:
+            doms = [('last-char', WORDS, flagval), ('mid-char', WORDS, lambda w: '-DM' + str(1 + WORDS.index(w)) + '=0 ' + BASEFLAG + '1')]
+            for dn, words, conv in (doms if thorough else doms[:1]):
+                cfgs = []
+                for w in words:
+                    c = dict(cfg)
+                    for p in fl: c[p] = conv(w)
+                    cfgs.append(c)
+                rr, ss = E.run(mode, 'key', cfgs)
+                hv = {p: [] for p in fl}; ok = True
+                for i, w in enumerate(words):
+                    _, dd = term_of(ss[i], rr[i]['key'])
+                    for p in fl:
+                        t = (tm[p]['pre'] + conv(w) + tm[p]['post']).encode()
+                        if t not in dd: ok = False
+                        else: hv[p].append(dd[t])
+                rec = {'query': '%s/real-hash/%s' % (mode, dn), 'backend': 'z3 (bit-vectors)', 'witness': 'reached', 'properties': 1,
+                       'desc': 'hash values of the %d x %d leaves computed by the real library; two different value assignments to %s whose keys are equal' % (len(fl), len(words), fl)}
+                if not ok:
+                    rec['status'] = 'inconclusive'; ctx.inconclusive.append('%s: a template instance was not hashed by the library (term shape differs between configurations)' % rec['query'])
+                    ctx.queries.append(rec); continue
+                t0 = time.time()
+                rc, o, e, s_, _ = C.sh(['python3-vt', os.path.join(C.VERIF, 'harness/C06/smt_real.py')], timeout=300, stdin=json.dumps({'props': fl, 'values': len(words), 'h': hv}).encode())
+                rec['seconds'] = round(time.time() - t0, 2); ctx.solver_s += time.time() - t0
+                try: r = json.loads(o)
+                except Exception: r = {'result': 'error', 'detail': (o + e)[-300:]}
+                rec['result'] = r.get('result')
+                if r.get('result') == 'unsat':
+                    rec['status'] = 'pass'
+                elif r.get('result') == 'sat':
+                    A = dict(cfg); B = dict(cfg)
+                    for p in fl:
+                        A[p] = conv(words[r['A'][p]]); B[p] = conv(words[r['B'][p]])
+                    rec['model'] = {'A': {p: A[p] for p in fl}, 'B': {p: B[p] for p in fl}}
+                    nat = native_pair(E, mode, A, B, build=False)
+                    rec['native'] = nat
+                    if nat['keys_equal']:
+                        rec['status'] = 'fail'; ctx.selftests += 1; slot += 1
+                        d = write_replay(ctx, slot, 'different configurations, same cache key (collision of the real hash inside the value domain)', mode, A, B)
+                        ctx.violations.append(('%s: %s vs %s get the same cache key' % (mode, rec['model']['A'], rec['model']['B']), d))
+                    else:
+                        rec['status'] = 'inconclusive'; ctx.inconclusive.append('%s: solver model did not reproduce on the real library' % rec['query'])
+                else:
+                    rec['status'] = 'inconclusive'; ctx.inconclusive.append('%s: solver answered %s %s' % (rec['query'], r.get('result'), r.get('detail', '')))
+                ctx.queries.append(rec)
         # ---- encoder validation: predicted vs real key equality on concrete pairs (including coinciding values)
         pairs = []
         fl = [p for p in FLAGP if p in strp]
